@@ -74,6 +74,21 @@ RNew(ev) ==
   /\ rd' = [data |-> ev.data, n |-> Len(ev.data), cur |-> Dig8(0)]
   /\ UNCHANGED <<host, sw, bw, bits, brd>>
 
+(* buffers too large to log: byte i (0-based) = (i * a + (i \div 256) * b + c) mod 256, evaluated here *)
+GenData(ev) == [i \in 1..ev.n |-> ((i - 1) * ev.a + ((i - 1) \div 256) * ev.b + ev.c) % 256]
+RNewGen(ev) == rd' = [data |-> GenData(ev), n |-> ev.n, cur |-> Dig8(0)] /\ UNCHANGED <<host, sw, bw, bits, brd>>
+SwGen(ev) == Chk(ev.size = ev.n, "write of a large block: size()") /\ sw' = GenData(ev) /\ UNCHANGED <<host, bw, bits, rd, brd>>
+(* positional write into a large buffer: the logged window around the offset and the size are checked against the
+   specification's buffer; ev.same = 1 is the driver's statement that no byte outside the window changed *)
+PPutW(ev) ==
+  LET nb == Overwrite(sw, ev.off, Enc(ev.ord, host, ev.v)) IN
+  /\ Chk(OK(ev), "positional write inside a large buffer threw")
+  /\ Chk(ev.size = Len(nb), "positional write inside a large buffer: size()")
+  /\ Chk(ev.lo + Len(ev.win) <= Len(nb) /\ ev.win = Slice(nb, ev.lo, Len(ev.win)),
+         "positional write at a large offset: the bytes around the offset are not the old bytes overwritten with the value's encoding")
+  /\ Chk(ev.same = 1, "positional write at a large offset changed bytes far away from the offset")
+  /\ sw' = nb /\ UNCHANGED <<host, bw, bits, rd, brd>>
+
 RdKeep(ev, newcur) ==
   /\ Chk(ev.where = newcur, "cursor after the call")
   /\ rd' = [rd EXCEPT !.cur = ev.where] /\ UNCHANGED <<host, sw, bw, bits, brd>>
@@ -199,6 +214,9 @@ Step(ev) ==
     [] ev.e \in {"bwnew", "bput", "bpput", "bwrite", "bpwrite"} -> BWStep(ev)
     [] ev.e \in {"bit", "bittrunc", "bitreset"} -> BitStep(ev)
     [] ev.e = "rnew" -> RNew(ev)
+    [] ev.e = "rnewgen" -> RNewGen(ev)
+    [] ev.e = "swgen" -> SwGen(ev)
+    [] ev.e = "pputw" -> PPutW(ev)
     [] ev.e = "get" -> Get(ev)
     [] ev.e = "pget" -> PGet(ev)
     [] ev.e = "gspan" -> GSpan(ev)
